@@ -16,6 +16,21 @@ from vf import complexb, sess, tlc
 from vf.common import InfraError, mkdir
 
 
+def euler_pairs(n):
+    """a closed walk over nodes 0..n-1 in which every ordered pair (a, b), a = b included, occurs as neighbours"""
+    nxt = [0] * n
+    stack, out = [0], []
+    while stack:
+        v = stack[-1]
+        if nxt[v] < n:
+            w = nxt[v]
+            nxt[v] += 1
+            stack.append(w)
+        else:
+            out.append(stack.pop())
+    return out[::-1]
+
+
 def run(ctx):
     cov = {}
     shapes = []
@@ -112,13 +127,47 @@ def run(ctx):
                               "legal" if c["legal"] else "illegal", shape_brief(sh)),
                           {"shape": sh, "parts": c["s"], "order": order, "legal": c["legal"], "instance": text,
                            "schema": complexb.schema_text([sh])})
+    # Complex!HistoryFree: every ordered pair of part sets of a shape adjacent in one file (an Euler circuit of the
+    # complete directed graph over the part sets); shapes with many part sets: seeded shuffles instead
+    import random
+    seqfiles = {}
+    npairs = 0
+    for i, sh in enumerate(shapes):
+        cs = sorted(sh["cases"], key=lambda c: (len(c["s"]), c["s"]))
+        n = len(cs)
+        if n <= 130:
+            order = euler_pairs(n)
+            npairs += n * n
+        else:
+            rnd = random.Random(ctx.seed * 1000 + i)
+            order = []
+            for _ in range(3 if ctx.quick else 12):
+                o = list(range(n))
+                rnd.shuffle(o)
+                order += o
+            npairs += len(order)
+        seqfiles[i] = [(k + 1, complexb.instance_text(i, cs[j]["s"], "sorted" if k % 2 else "rev", k), cs[j], "seq") for k, j in enumerate(order)]
+    items = [("q%d" % i, seqfiles[i]) for i in seqfiles]
+    res3 = {}
+    with cf.ThreadPoolExecutor(max_workers=8) as ex:
+        for r in ex.map(lambda k: run_files(items[k:k + 4], "q%d" % k), range(0, len(items), 4)):
+            res3.update(r)
+    for i in seqfiles:
+        if not judge(i, seqfiles[i], res3.get("q%d" % i, []), False) and i not in retry:
+            sh = shapes[i]["shape"]
+            counts["crashes"] += 1
+            ctx.violation("crash-in-sequence|%s" % shape_brief(sh), "reader died on a file with %d externally mapped instances under %s "
+                          "(each of them alone is read without a crash)" % (len(seqfiles[i]), shape_brief(sh)),
+                          {"shape": sh, "schema": complexb.schema_text([sh]),
+                           "file": complexb.file_text([(n, t) for n, t, c, o in seqfiles[i]])[:20000],
+                           "result": [x for x in res3.get("q%d" % i, []) if x.get("cmd") == "crash"]})
     shutil.rmtree(wd, ignore_errors=True)
     ncases = sum(len(s["cases"]) for s in shapes)
     cov.update({"traces_validated_against_impl": counts["judged"], "exhaustive": True, "shapes": len(shapes),
-                "part_sets": ncases, "instances_judged": counts["judged"], "reader_crashes": counts["crashes"],
+                "part_sets": ncases, "ordered_pairs_in_sequence": npairs, "instances_judged": counts["judged"], "reader_crashes": counts["crashes"],
                 "samples": [{"shape": shapes[0]["shape"], "cases": shapes[0]["cases"][:4]}],
                 "evaluations": counts["judged"], "distinct_nontrivial": ncases,
-                "rule": "every shape x every non-empty subset of its entities x two part orders; distinct by construction"})
+                "rule": "every shape x every non-empty subset of its entities x two part orders, then every ordered pair of part sets adjacent in one file; distinct by construction"})
     return {"level": "model_checking", "coverage": cov, "assumptions": [
         "entities carry one OPTIONAL INTEGER attribute each; attribute values do not influence legality",
         "'created' = the instance is present in the instance manager after the read"]}
